@@ -271,14 +271,20 @@ def run_incremental(logL, ns, mode, kind, nlive, track):
     zrect = float(st.log_evidence)
     w_pre = np.asarray(st.log_posterior_weights, dtype=float)
     ret = st.finalise()
+    w_first = np.asarray(st.log_posterior_weights, dtype=float).copy()
+    # the other public reads of the state must not disturb what the next read of the weights returns
+    _ = st.effective_n_posterior_samples
+    _ = st.log_evidence_error
+    w_again = np.asarray(st.log_posterior_weights, dtype=float).copy()
     return {
+        "w_again": w_again,
         "zrect": zrect,
         "w_pre": w_pre,
         "logx_live": logx_live,
         "z": float(st.log_evidence),
         "ret": float(ret),
         "lv": np.asarray(st.log_vols, dtype=float),
-        "w": np.asarray(st.log_posterior_weights, dtype=float),
+        "w": w_first,
         "n_logLs": len(st.logLs), "n_vols": len(st.log_vols), "nlive_list": [int(x) for x in st.nlive],
     }
 
@@ -398,6 +404,8 @@ def check_instance(mode, kind, nlive, ns, logL, shifts=(), exact=True, track=Tru
                 mism.append(f"finalise() returned {inc['ret']!r} but log_evidence is {inc['z']!r}")
             cmp_w("weights", "incremental (before finalise)", inc["w_pre"], orc["logw"], tol["w"])
             cmp_w("weights", "incremental (after finalise)", inc["w"], orc["logw"], tol["w"])
+            cmp_w("weights", "incremental (read again after the effective sample size was queried)",
+                  inc["w_again"], orc["logw"], tol["w"])
 
     # ---- (ii) one pass
     variants = (["int"] if kind == "const" else []) + ["array_int", "array_float"]
